@@ -17,7 +17,7 @@ RULE = ('application trees (1-12 routes over a vocabulary full of byte-prefix pa
         'any level) each in two registration orders x 24 requests (every kind of mutation of instantiated routes: extra/empty segments, trailing slashes, shared byte prefixes, percent-escapes, '
         'other methods, HEAD); non-trivial = the app has a static/param sibling pair or a mount, and the request is not a verbatim instantiation; distinct by canonical JSON')
 ASSUMPTIONS = ['a mount prefix is a static/param alternative in the tree of every method (C04 requires the fangs of the mounted application to run for every request under its prefix, whatever the method): a path whose statics-first walk enters a mount prefix is answered inside it',
-               'a route captures at most two params (the framework stores two); static segments are compared as raw bytes; a param never matches an empty segment',
+               'a route may hold any number of params, of which the framework stores (and the handlers see) the first two; static segments are compared as raw bytes; a param never matches an empty segment',
                'OPTIONS requests are the subject of C14']
 
 
@@ -61,7 +61,7 @@ def generate(rng, tier):
     out = []
     for _ in range(n):
         ids = appgen.Ids()
-        app = appgen.gen_app(rng, ids, fangs=rng.random() < 0.5, local=False, free=rng.random() < 0.5)
+        app = appgen.gen_app(rng, ids, fangs=rng.random() < 0.5, local=False, free=rng.random() < 0.5, nparams_left=rng.choice([2, 2, 2, 3, 4, 5]))          # a route may hold any number of params (mount prefixes included); the framework stores the first two
         if not appgen.flat_routes(app): continue
         out.append(mk(rng, app))
     return out
